@@ -38,6 +38,10 @@ ATTRS = {
     "task": {"kind": "U"},
     "Outputs": {"kind": "U"},
     "errored": {"kind": "U"},
+    # reading these properties of the task recomputes and overwrites Task._hashes: modelled as effects so that the C19
+    # clause can see a read between the task body and the input-hash check
+    "_hash": {"kind": "U", "effect": True, "may_raise": True},
+    "_checksum": {"kind": "U", "effect": True, "may_raise": True},
 }
 
 
@@ -104,6 +108,19 @@ def contract(qual, with_role, noraise=()):
         if out.kind == "return" and not evs(st, "self._populate_filesystem"):
             return not pre and not post
         return len(post) <= len(pre) <= 1
+
+    # ---- C19 clause: a normal return after an execution has passed the input-hash check, and between the task body and
+    # that check nothing re-reads Task._hash / Task._checksum (reading them REFRESHES the stored per-field hashes the
+    # check compares with: `hsh, self._hashes = self._compute_hashes()`), so the comparison is with the pre-run hashes
+    def hash_check_after_run(E, st, out):
+        ran = evs(st, RUN, ok=True)
+        if not ran or out.kind != "return":
+            return True
+        chk = [(i, e) for i, e in enumerate(st.trace) if e.name == "self._check_for_hash_changes" and i > ran[-1][0]]
+        if not chk or chk[0][1].raised:
+            return False
+        between = st.trace[ran[-1][0] + 1 : chk[0][0]]
+        return not any(e.name.endswith((".task._hash", ".task._checksum", ".task._compute_hashes")) for e in between)
 
     # ---- C13 clauses
     def failure_propagates(E, st, out):
@@ -235,6 +252,7 @@ def contract(qual, with_role, noraise=()):
         ("unerrored-result-only-after-successful-run", role("unerrored-result-only-after-successful-run"), success_saved_unerrored_only_after_run),
         ("cache-hit-only-unerrored", role("cache-hit-only-unerrored"), cache_hit_only_unerrored),
         ("executes-iff-rerun-or-no-usable-result", role("executes-iff-rerun-or-no-usable-result"), executes_iff_needed),
+        ("input-hash-check-follows-the-run-unrefreshed", role("input-hash-check-follows-the-run-unrefreshed"), hash_check_after_run),
         ("audit-start-end-paired", role("audit-start-end-paired"), audit_paired),
         ("audit-end-flag-is-saved-flag", role("audit-end-flag-is-saved-flag"), audit_end_flag_matches),
     ]
